@@ -322,12 +322,44 @@ def _item_contains_table(ctx):
     decide(ctx, "O1.3", "item-contains", qualname, cell, min_cells=8)
 
 
+def items_overlap_table(ctx, rule="O1.3"):
+    """Range._items_overlap(a, b) answers whether the two items have a value in common - for every shape of the two items
+    and every ordering of their limits, whichever of the two is given first."""
+    model = ctx.model
+    qualname = RANGE + "._items_overlap"
+    cls = model.cls(RANGE)
+
+    def cell(ch):
+        shape_a, lower_a, upper_a = _item_shapes(ch, 0)
+        shape_b, lower_b, upper_b = _item_shapes(ch, 1)
+
+        def setup(interp):
+            for lower, upper in ((lower_a, upper_a), (lower_b, upper_b)):
+                if lower is not None and upper is not None:
+                    interp.order.declare(("s", lower.key()), "<=", ("s", upper.key()))
+            return [Obj(cls, {}), (lower_a, upper_a), (lower_b, upper_b)], {}
+
+        interp, outcome = run_call(model, ch, qualname, None, setup=setup)
+        actual = ("raise " + exc_name(outcome[1])) if outcome[0] == "raise" else outcome[1]
+
+        def order_sign(a, b):
+            return interp.order.sign(("s", a.key()), ("s", b.key()))
+
+        expected = _intersect((lower_a, upper_a), (lower_b, upper_b), order_sign)
+        facts = ", ".join("%s%s%s" % (a[1], rel, b[1]) for a, rel, b in interp.order.facts)
+        return ("%s against %s order[%s]" % (shape_a, shape_b, facts), actual, expected)
+
+    ctx.res.minimum(rule, 1)
+    decide(ctx, rule, "items-overlap", qualname, cell, min_cells=20)
+
+
 def rule_membership(ctx):
     ctx.res.minimum("O1.3", 5)
     counts = [None, 1, 2] + ([3] if ctx.thorough else [])
     _validate_table(ctx, RANGE + ".validate", RANGE, counts)
     _validate_table(ctx, DECIMAL_RANGE + ".validate", DECIMAL_RANGE, counts, decimal=True)
     _item_contains_table(ctx)
+    items_overlap_table(ctx)
     _validate_sequence_table(ctx, RANGE + ".validate", RANGE)
     _validate_sequence_table(ctx, DECIMAL_RANGE + ".validate", DECIMAL_RANGE, decimal=True)
     # SIBLING side condition: the Decimal probe is converted exactly once, through decimal.Decimal, and a
